@@ -487,7 +487,7 @@ PROPS = {
             "thorough": [("compile", ["-n", "10000"])],
         },
         "analyze": analyze_generic,
-        "oracles": ["total", "modelIdempotent"],
+        "oracles": ["total", "modelIdempotent", "rejectsUnknown"],
         "probes": ["reprIndependent", "compileIdempotent", "reloadSame"],
         "rule": ("specification documents derived from random spec graphs (ECMAScript action and guard sources): as they are, with "
                  "every pattern turned into JSON text under patternSyntax json, with bare string / bare variable patterns, and malformed "
